@@ -137,6 +137,17 @@ where
                 let m = v.into_dimensionality::<Ix2>().unwrap();
                 e_empty(m.pearson_correlation()).map(|r| show_arr(&r.into_dyn()))
             }
+            // ndarray's own std_axis(Axis(1), 0): what pearson_correlation divides by.  Not a routine
+            // of ndarray-stats; observed so that the model of it (Welford with a fused
+            // multiply-add, Num/WelfordF64.v) is tied to the library the theorem talks about
+            "nd_std_axis" => {
+                let m = v.into_dimensionality::<Ix2>().unwrap();
+                if m.len_of(Axis(1)) == 0 {
+                    Ok("1 0 | 0".to_string())
+                } else {
+                    Ok(show_arr(&m.std_axis(Axis(1), T::zero()).into_dyn()))
+                }
+            }
             _ => Err(format!("UNKNOWN-ROUTINE {}", routine)),
         }
     });
